@@ -328,11 +328,615 @@ Section Enc.
         dchildren f (length l) (cat vs ++ r) = DOk (map (fun c => cref c (collapse c)) l, r).
   Proof.
     induction 1 as [|c l (kc & cc & Es & Ok1 & Len1 & Dec1) _ (vs & Ev & Okv & Lv & Lenv & Decv)].
-    - exists []. repeat split; try reflexivity; try constructor. cbn. lia.
+    - exists []. repeat split; try reflexivity; try constructor.
     - exists ((kc, cc) :: vs). cbn [enc16]. rewrite Es, Ev, cat_cons.
       split; [reflexivity|]. split; [constructor; assumption|]. split; [cbn [length]; lia|].
       split; [rewrite app_length; cbn [length]; lia|].
       intros f r Hf. cbn [length map]. rewrite dchildren_S, <- app_assoc.
       rewrite app_length in Hf. rewrite Dec1 by lia. rewrite Decv by lia. reflexivity.
   Qed.
+
+  Lemma enc_str_len b : lenN b < 2 ^ 64 -> (length b <= length (enc_str b) <= length b + 9)%nat.
+  Proof.
+    intros Hb. rewrite enc_str_chunk, chunk_len. pose proof (hdr_le9 (str_kind b) b Hb). lia.
+  Qed.
+
+  Lemma compact_small k ck : small k -> hex_to_compact k = Some ck -> lenN ck < 2 ^ 33.
+  Proof.
+    intros Hk E. apply hex_to_compact_len in E. unfold small, lenN in *. lia.
+  Qed.
+
+  Lemma count2 a b : vs_ok [a; b] -> count_values (cat [a; b]) = (2, None).
+  Proof. intros Hok. unfold cat. rewrite count_values_complete by exact Hok. reflexivity. Qed.
+
+  Lemma fuel_S f n : (n < f \/ 33 <= f)%nat -> exists f', f = S f'.
+  Proof. intros Hf. destruct f; [lia|eauto]. Qed.
+
+  Theorem pwf_egood n : pwf n -> egood n.
+  Proof.
+    induction n as [| |k c IH|cs IH|] using node_ind'; intros Hw; try solve [inversion Hw].
+    - (* short node *)
+      destruct (hex_to_compact_total k) as [ck Eck].
+      inversion Hw as [k0 v Hk Sk [Vne Vs]|k0 c0 Hk Kne Sk Hc|]; subst.
+      + (* leaf *)
+        pose proof (compact_small _ _ Sk Eck) as Sck.
+        assert (Ock : chunk_ok (str_kind ck) ck) by (apply str_chunk_ok; lia).
+        assert (Ov : chunk_ok (str_kind v) v) by (apply str_chunk_ok; unfold small in Vs; lia).
+        assert (Epc : enc_str ck ++ enc_str v = cat [(str_kind ck, ck); (str_kind v, v)]).
+        { unfold cat. cbn [flat_map fst snd]. rewrite <- !enc_str_chunk, app_nil_r. reflexivity. }
+        pose proof (enc_str_len ck ltac:(lia)) as Lck.
+        pose proof (enc_str_len v ltac:(unfold small in Vs; lia)) as Lv.
+        assert (Spc : lenN (enc_str ck ++ enc_str v) < 2 ^ 34).
+        { unfold lenN in *. unfold small in Vs. unfold lenN in Vs. rewrite app_length. lia. }
+        exists (enc_str ck ++ enc_str v).
+        split; [rewrite node_enc_short_leaf by (apply valid_key_has_term; exact Hk); rewrite Eck; reflexivity|].
+        split; [exact Spc|]. intros f r Hf. destruct (fuel_S _ _ Hf) as [f' ->].
+        rewrite decode_chunk by lia. rewrite Epc at 1.
+        rewrite count2 by (constructor; [assumption|constructor; [assumption|constructor]]).
+        unfold dbody. rewrite N.eqb_refl. rewrite split_string_enc_str by lia. cbv zeta.
+        rewrite (compact_hex k ck (valid_key_wf_hex k Hk) Eck).
+        rewrite (valid_key_has_term k Hk).
+        rewrite <- (app_nil_r (enc_str v)), split_string_enc_str by (unfold small in Vs; lia).
+        reflexivity.
+      + (* extension *)
+        pose proof (compact_small _ _ Sk Eck) as Sck.
+        assert (Ock : chunk_ok (str_kind ck) ck) by (apply str_chunk_ok; lia).
+        destruct (cgood_node c Hc (IH Hc)) as (kc & cc & Es & Ok1 & Len1 & Dec1).
+        assert (Ht : has_term k = false) by (apply has_term_nib_false, nibbles_forallb, Hk).
+        assert (Epc : enc_str ck ++ chunk kc cc = cat [(str_kind ck, ck); (kc, cc)]).
+        { unfold cat. cbn [flat_map fst snd]. rewrite <- enc_str_chunk, app_nil_r. reflexivity. }
+        pose proof (enc_str_len ck ltac:(lia)) as Lck.
+        assert (Spc : lenN (enc_str ck ++ chunk kc cc) < 2 ^ 34).
+        { unfold lenN in *. rewrite app_length. lia. }
+        exists (enc_str ck ++ chunk kc cc).
+        split.
+        { rewrite node_enc_short_ext by (exact Ht || exact (pwf_shape c Hc)). rewrite Eck, Es.
+          destruct (pwf_shape c Hc) as [(k' & c' & ->)|(cs & ->)]; reflexivity. }
+        split; [exact Spc|]. intros f r Hf. destruct (fuel_S _ _ Hf) as [f' ->].
+        rewrite decode_chunk by lia. rewrite Epc at 1.
+        rewrite count2 by (constructor; [assumption|constructor; [assumption|constructor]]).
+        unfold dbody. rewrite N.eqb_refl. rewrite split_string_enc_str by lia. cbv zeta.
+        rewrite (compact_hex k ck (nibbles_wf_hex k Hk) Eck). rewrite Ht.
+        rewrite <- (app_nil_r (chunk kc cc)), Dec1; [reflexivity|].
+        rewrite chunk_len, app_length in Hf. pose proof (hdr_ge1 KList (enc_str ck ++ chunk kc cc)).
+        assert (KList <> KByte) by discriminate. lia.
+    - (* full node *)
+      inversion Hw as [| |cs0 HL Hch H16]; subst.
+      destruct (split17 cs HL) as (l & c16 & -> & Hl).
+      assert (Gl : Forall cgood l).
+      { apply Forall_forall. intros c Hin. destruct (In_nth_error _ _ Hin) as [i Hi].
+        assert (Hil : (i < length l)%nat) by (apply nth_error_Some; congruence).
+        assert (Hi' : nth_error (l ++ [c16]) i = Some c) by (rewrite nth_error_app1; assumption).
+        destruct (Hch i c Hi' ltac:(lia)) as [->|Hc]; [apply cgood_empty|].
+        apply cgood_node; [exact Hc|]. rewrite Forall_forall in IH. apply IH; [|exact Hc].
+        apply in_or_app. left. exact Hin. }
+      destruct (children_good l Gl) as (vs & Ev & Okv & Lv & Lenv & Decv).
+      assert (H16' : exists v16, val_enc c16 = Some (enc_str v16) /\ lenN v16 < 2 ^ 32 /\
+                       c16 = match v16 with [] => NEmpty | _ => NValue v16 end).
+      { destruct (H16 c16) as [->|(v & -> & Vne & Vs)].
+        - rewrite nth_error_app2 by lia. rewrite Hl. reflexivity.
+        - exists []. repeat split.
+        - exists v. split; [destruct v; [congruence|reflexivity]|]. split; [exact Vs|].
+          destruct v; [congruence|reflexivity]. }
+      destruct H16' as (v16 & Ev16 & Sv16 & Ec16).
+      assert (Ov : chunk_ok (str_kind v16) v16) by (apply str_chunk_ok; lia).
+      assert (Epc : cat vs ++ enc_str v16 = cat (vs ++ [(str_kind v16, v16)])).
+      { rewrite cat_app. unfold cat at 3. cbn [flat_map fst snd]. rewrite <- enc_str_chunk, app_nil_r. reflexivity. }
+      pose proof (enc_str_len v16 ltac:(lia)) as Lv16.
+      assert (Spc : lenN (cat vs ++ enc_str v16) < 2 ^ 34).
+      { unfold lenN in *. rewrite app_length. lia. }
+      exists (cat vs ++ enc_str v16).
+      split.
+      { rewrite node_enc_full, enc_go_split by (simpl; lia). rewrite Ev, Ev16. reflexivity. }
+      split; [exact Spc|]. intros f r Hf. destruct (fuel_S _ _ Hf) as [f' ->].
+      rewrite decode_chunk by lia. rewrite Epc at 1.
+      unfold cat at 1. rewrite count_values_complete
+        by (apply Forall_app; split; [exact Okv|constructor; [exact Ov|constructor]]).
+      replace (lenN (vs ++ [(str_kind v16, v16)])) with 17
+        by (unfold lenN; rewrite app_length, Lv, Hl; reflexivity).
+      unfold dbody. change (17 =? 2) with false. change (17 =? 17) with true. cbv iota.
+      specialize (Decv f' (enc_str v16)). rewrite Hl in Decv. rewrite Decv.
+      + rewrite <- (app_nil_r (enc_str v16)), split_string_enc_str by lia.
+        cbn [collapse]. rewrite map_app. cbn [map]. rewrite Ec16. destruct v16; reflexivity.
+      + rewrite chunk_len, app_length in Hf. pose proof (hdr_ge1 KList (cat vs ++ enc_str v16)).
+        assert (KList <> KByte) by discriminate. lia.
+  Qed.
+
+  (* decode_enc: decodeNode of a genuine node encoding *)
+  Theorem decode_enc n e : pwf n -> node_enc H n = Some e -> proof_decode e = DOk (collapse n).
+  Proof.
+    intros Hw Ee. destruct (pwf_egood n Hw) as (pc & Ee' & _ & Hdec).
+    rewrite Ee in Ee'. inversion Ee'; subst e. unfold proof_decode, decode_node.
+    rewrite <- (app_nil_r (chunk KList pc)). apply Hdec. right. lia.
+  Qed.
+
+  Lemma pwf_enc_total n : pwf n -> exists e, node_enc H n = Some e.
+  Proof. intros Hw. destruct (pwf_egood n Hw) as (pc & Ee & _). eauto. Qed.
+
+  Lemma pwf_hash_root n e : pwf n -> node_enc H n = Some e -> hash_root H n = Some (H e).
+  Proof.
+    intros Hw Ee. destruct (pwf_shape n Hw) as [(k & c & ->)|(cs & ->)];
+      unfold hash_root, node_ref; rewrite Ee, andb_false_r; reflexivity.
+  Qed.
 End Enc.
+
+(* ------------------------------------------------------------------ small facts about the model functions *)
+
+Lemma db_get_in db k b : db_get db k = Some b -> In (k, b) db.
+Proof.
+  induction db as [|[k' v] db IH]; [discriminate|]. cbn [db_get].
+  destruct (db_get db k) as [x|].
+  - intros E; inversion E; subst. right. apply IH. reflexivity.
+  - destruct (bytes_eqb k' k) eqn:B; [|discriminate]. intros E; inversion E; subst.
+    apply bytes_eqb_eq in B. subst. left. reflexivity.
+Qed.
+
+Lemma db_get_of_in db k b : In (k, b) db -> exists b', db_get db k = Some b'.
+Proof.
+  induction db as [|[k' v] db IH]; [intros []|]. intros [E|Hin]; cbn [db_get].
+  - inversion E; subst. destruct (db_get db k); [eauto|]. rewrite bytes_eqb_refl. eauto.
+  - destruct (IH Hin) as [b' ->]. eauto.
+Qed.
+
+Lemma pget_full cs k0 kr :
+  pget (NFull cs) (k0 :: kr) =
+  match nth_error cs (N.to_nat k0) with Some c => pget c kr | None => None end.
+Proof.
+  cbn [pget]. generalize (N.to_nat k0). induction cs as [|c cs IH]; intros [|i]; simpl; auto.
+Qed.
+
+Lemma pget_short nk c key :
+  pget (NShort nk c) key =
+  match strip nk key with Some r => pget c r | None => Some ([], NEmpty) end.
+Proof.
+  cbn [pget]. pose proof (is_prefix_strip nk key) as Hs. destruct (strip nk key) as [r|].
+  - destruct Hs as [-> ->]. reflexivity.
+  - rewrite Hs. reflexivity.
+Qed.
+
+Lemma verify_f_S f db want key i :
+  verify_f (S f) db want key i =
+  match db_get db want with
+  | None => VErr (VMissing i)
+  | Some buf =>
+      match proof_decode buf with
+      | DErr e => VErr (VBad i e)
+      | DOk n =>
+          match pget n key with
+          | None => VErr VPanic
+          | Some (keyrest, cld) =>
+              match cld with
+              | NEmpty => VOk None
+              | NHash h => verify_f f db h keyrest (S i)
+              | NValue v => VOk (Some v)
+              | _ => VErr VLoop
+              end
+          end
+      end
+  end.
+Proof. reflexivity. Qed.
+
+(* all nodes of a trie *)
+Fixpoint nodes_of (n : node) : list node :=
+  n :: match n with
+       | NShort _ c => nodes_of c
+       | NFull cs => flat_map nodes_of cs
+       | _ => []
+       end.
+
+Lemma nodes_of_self n : In n (nodes_of n).
+Proof. destruct n; left; reflexivity. Qed.
+Lemma nodes_of_short k c x : In x (nodes_of c) -> In x (nodes_of (NShort k c)).
+Proof. intros Hx. right. exact Hx. Qed.
+Lemma nodes_of_full cs i c x : nth_error cs i = Some c -> In x (nodes_of c) -> In x (nodes_of (NFull cs)).
+Proof.
+  intros Hc Hx. right. apply in_flat_map. exists c. split; [eapply nth_error_In; eassumption|exact Hx].
+Qed.
+
+(* the nodes Prove collects for [key]: the first loop of Trie.Prove, structurally *)
+Fixpoint path_nodes (n : node) (key : list N) {struct n} : list node :=
+  match key with
+  | [] => []
+  | k0 :: kr =>
+      match n with
+      | NShort nk c =>
+          if is_prefix_of nk key then n :: path_nodes c (skipn (length nk) key) else [n]
+      | NFull cs =>
+          n :: (fix go (l : list node) (i : nat) {struct l} : list node :=
+                  match l with
+                  | [] => []
+                  | c :: l' => match i with O => path_nodes c kr | S i' => go l' i' end
+                  end) cs (N.to_nat k0)
+      | _ => []
+      end
+  end.
+
+Lemma path_nodes_full cs k0 kr :
+  path_nodes (NFull cs) (k0 :: kr) =
+  NFull cs :: match nth_error cs (N.to_nat k0) with Some c => path_nodes c kr | None => [] end.
+Proof.
+  cbn [path_nodes]. f_equal. generalize (N.to_nat k0).
+  induction cs as [|c cs IH]; intros [|i]; simpl; auto.
+Qed.
+
+Lemma path_nodes_short nk c key : key <> [] ->
+  path_nodes (NShort nk c) key =
+  match strip nk key with Some r => NShort nk c :: path_nodes c r | None => [NShort nk c] end.
+Proof.
+  intros Hk. destruct key as [|k0 kr]; [congruence|]. cbn [path_nodes].
+  pose proof (is_prefix_strip nk (k0 :: kr)) as Hs. destruct (strip nk (k0 :: kr)) as [r|].
+  - destruct Hs as [-> ->]. reflexivity.
+  - rewrite Hs. reflexivity.
+Qed.
+
+Lemma path_nodes_head n key : pwf n -> key <> [] -> In n (path_nodes n key).
+Proof.
+  intros Hw Hk. destruct key as [|k0 kr]; [congruence|].
+  destruct (pwf_shape n Hw) as [(k & c & ->)|(cs & ->)].
+  - rewrite path_nodes_short by discriminate. destruct (strip k (k0 :: kr)); left; reflexivity.
+  - rewrite path_nodes_full. left. reflexivity.
+Qed.
+
+Lemma path_nodes_sub n : forall key x, In x (path_nodes n key) -> In x (nodes_of n).
+Proof.
+  induction n as [| |k c IH|cs IH|] using node_ind'; intros key x Hx;
+    try solve [destruct key; destruct Hx].
+  - destruct key as [|k0 kr]; [destruct Hx|]. rewrite path_nodes_short in Hx by discriminate.
+    destruct (strip k (k0 :: kr)) as [r|].
+    + destruct Hx as [<-|Hx]; [apply nodes_of_self|]. apply nodes_of_short. eapply IH; eassumption.
+    + destruct Hx as [<-|[]]. apply nodes_of_self.
+  - destruct key as [|k0 kr]; [destruct Hx|]. rewrite path_nodes_full in Hx.
+    destruct Hx as [<-|Hx]; [apply nodes_of_self|].
+    destruct (nth_error cs (N.to_nat k0)) as [c|] eqn:Ec; [|destruct Hx].
+    eapply nodes_of_full; [exact Ec|]. rewrite Forall_forall in IH.
+    eapply IH; [eapply nth_error_In; exact Ec|exact Hx].
+Qed.
+
+(* ------------------------------------------------------------------ the proof walk follows the trie *)
+
+Section Walk.
+  Variable H : list N -> list N.
+  Hypothesis H_len : forall x, length (H x) = 32%nat.
+  Variable db : pdb.
+  (* the database answers the hash of an encoding in [P] only with that encoding *)
+  Variable P : list N -> Prop.
+  Hypothesis faithful : forall e b, P e -> db_get db (H e) = Some b -> b = e.
+
+  Definition genuine (t : node) (e : list N) : Prop :=
+    exists c, In c (nodes_of t) /\ node_enc H c = Some e.
+
+  Lemma genuine_short k c e : genuine c e -> genuine (NShort k c) e.
+  Proof. intros (x & Hx & Ex). exists x. split; [apply nodes_of_short|]; assumption. Qed.
+  Lemma genuine_full cs i c e : nth_error cs i = Some c -> genuine c e -> genuine (NFull cs) e.
+  Proof. intros Hc (x & Hx & Ex). exists x. split; [eapply nodes_of_full; eassumption|assumption]. Qed.
+  Lemma genuine_self n e : node_enc H n = Some e -> genuine n e.
+  Proof. intros E. exists n. split; [apply nodes_of_self|exact E]. Qed.
+
+  (* what VerifyProof does with the result of get *)
+  Definition cont (f i : nat) (x : option (list N * node)) : vres :=
+    match x with
+    | None => VErr VPanic
+    | Some (kr, cld) =>
+        match cld with
+        | NEmpty => VOk None
+        | NHash h => verify_f f db h kr (S i)
+        | NValue v => VOk (Some v)
+        | _ => VErr VLoop
+        end
+    end.
+
+  (* a hashed node on the path of [key] is not in the database *)
+  Definition missing_on (n : node) (key : list N) : Prop :=
+    exists c e, In c (path_nodes n key) /\ node_enc H c = Some e /\ (32 <= length e)%nat /\
+                db_get db (H e) = None.
+
+  Definition wres (r : vres) (n : node) (key : list N) : Prop :=
+    r = VOk (lk n key) \/ ((exists j, r = VErr (VMissing j)) /\ missing_on n key).
+
+  Definition walks (n : node) : Prop :=
+    forall key f i, valid_key key -> (length key < f)%nat ->
+      wres (cont f i (pget (collapse H n) key)) n key.
+
+  Lemma missing_short k c key r : strip k key = Some r -> key <> [] ->
+    missing_on c r -> missing_on (NShort k c) key.
+  Proof.
+    intros Hs Hk (x & e & Hx & Ee & Le & Hm). exists x, e. rewrite path_nodes_short, Hs by exact Hk.
+    split; [right; exact Hx|auto].
+  Qed.
+
+  Lemma missing_full cs k0 kr c : nth_error cs (N.to_nat k0) = Some c ->
+    missing_on c kr -> missing_on (NFull cs) (k0 :: kr).
+  Proof.
+    intros Hc (x & e & Hx & Ee & Le & Hm). exists x, e. rewrite path_nodes_full, Hc.
+    split; [right; exact Hx|auto].
+  Qed.
+
+  (* one child: embedded (walk on inside the same proof node) or hashed (next
+     database lookup) *)
+  Lemma child_walk c : pwf c -> walks c -> (forall e, genuine c e -> P e) ->
+    forall r f i, valid_key r -> (S (length r) < f)%nat ->
+      wres (cont f i (pget (cref H c (collapse H c)) r)) c r.
+  Proof.
+    intros Hw Hwalk HP r f i Hr Hf.
+    destruct (pwf_enc_total H H_len c Hw) as [e Ee].
+    assert (Hcr : cref H c (collapse H c) =
+                  if Nat.ltb (length e) 32 then collapse H c else NHash (H e)).
+    { destruct (pwf_shape c Hw) as [(k & c' & ->)|(cs & ->)]; unfold cref; rewrite Ee; reflexivity. }
+    rewrite Hcr. destruct (Nat.ltb (length e) 32) eqn:L.
+    - apply Hwalk; [exact Hr|lia].
+    - apply Nat.ltb_ge in L. cbn [pget cont]. destruct f as [|f']; [lia|]. rewrite verify_f_S.
+      destruct (db_get db (H e)) as [b|] eqn:G.
+      + rewrite (faithful e b (HP e (genuine_self c e Ee)) G).
+        rewrite (decode_enc H H_len c e Hw Ee). apply Hwalk; [exact Hr|lia].
+      + right. split; [eauto|]. exists c, e. split; [|auto].
+        apply path_nodes_head; [exact Hw|]. apply valid_key_nonempty. exact Hr.
+  Qed.
+
+  Lemma wres_short k c key r res : strip k key = Some r -> key <> [] ->
+    wres res c r -> wres res (NShort k c) key.
+  Proof.
+    intros Hs Hk [->|[Hj Hm]]; [left|right].
+    - rewrite lk_short, Hs. reflexivity.
+    - split; [exact Hj|]. eapply missing_short; eassumption.
+  Qed.
+
+  Lemma wres_full cs k0 kr c res : nth_error cs (N.to_nat k0) = Some c ->
+    wres res c kr -> wres res (NFull cs) (k0 :: kr).
+  Proof.
+    intros Hc [->|[Hj Hm]]; [left|right].
+    - rewrite lk_full, Hc. reflexivity.
+    - split; [exact Hj|]. eapply missing_full; eassumption.
+  Qed.
+
+  Theorem walk n : pwf n -> (forall e, genuine n e -> P e) -> walks n.
+  Proof.
+    induction n as [| |k c IH|cs IH|] using node_ind'; intros Hw HP; try solve [inversion Hw].
+    - (* short node *)
+      intros key f i Hkey Hf. cbn [collapse]. rewrite pget_short.
+      pose proof (valid_key_nonempty key Hkey) as Kne.
+      destruct (strip k key) as [r|] eqn:Hs.
+      2:{ left. cbn [cont]. rewrite lk_short, Hs. reflexivity. }
+      pose proof (proj1 (strip_some k key r) Hs) as Ek.
+      inversion Hw as [k0 v Hk Sk Vok|k0 c0 Hk Kne' Sk Hc|]; subst.
+      + (* leaf: the key ends here *)
+        assert (r = []) by (eapply valid_key_prefix_end; eassumption). subst r.
+        left. cbn [cref pget cont]. rewrite lk_short, Hs, lk_value. reflexivity.
+      + (* extension *)
+        assert (Rne : r <> []).
+        { intros ->. rewrite app_nil_r in Hkey. exact (valid_key_not_nibbles k Hkey Hk). }
+        destruct (valid_key_app_inv k r Hkey Rne) as [_ Hr].
+        eapply wres_short; [exact Hs|exact Kne|].
+        apply child_walk; [exact Hc| |intros e He; apply HP, genuine_short, He|exact Hr|].
+        * apply IH; [exact Hc|intros e He; apply HP, genuine_short, He].
+        * rewrite app_length in Hf. destruct k; [congruence|]. cbn [length] in Hf. lia.
+    - (* full node *)
+      intros key f i Hkey Hf. inversion Hw as [| |cs0 HL Hch H16]; subst.
+      destruct key as [|k0 kr]; [destruct Hkey|].
+      cbn [collapse]. rewrite pget_full, nth_error_map.
+      apply valid_key_cons in Hkey as [[-> ->]|[Hk0 Hkr]].
+      + (* the value slot *)
+        change (N.to_nat 16) with 16%nat.
+        destruct (nth_error cs 16) as [c|] eqn:Ec.
+        2:{ apply nth_error_None in Ec. lia. }
+        cbn [option_map]. left. rewrite lk_full. change (N.to_nat 16) with 16%nat. rewrite Ec.
+        destruct (H16 c eq_refl) as [->|(v & -> & _)]; cbn [cref pget cont]; [rewrite lk_empty|rewrite lk_value]; reflexivity.
+      + assert (Hi : (N.to_nat k0 < 16)%nat) by lia.
+        destruct (nth_error cs (N.to_nat k0)) as [c|] eqn:Ec.
+        2:{ apply nth_error_None in Ec. lia. }
+        cbn [option_map].
+        destruct (Hch _ c Ec Hi) as [->|Hc].
+        * left. cbn [cref pget cont]. rewrite lk_full, Ec, lk_empty. reflexivity.
+        * eapply wres_full; [exact Ec|].
+          assert (HPc : forall e, genuine c e -> P e)
+            by (intros e He; apply HP; eapply genuine_full; eassumption).
+          apply child_walk; [exact Hc| |exact HPc|exact Hkr|cbn [length] in Hf; lia].
+          rewrite Forall_forall in IH. apply IH; [eapply nth_error_In; exact Ec|exact Hc|exact HPc].
+  Qed.
+
+  (* VerifyProof from the root hash of [t] *)
+  Theorem verify_follows t e key : pwf t -> node_enc H t = Some e ->
+    (forall x, genuine t x -> P x) -> forallb byteb key = true ->
+    let k := keybytes_to_hex key in
+    verify_proof (H e) key db = VOk (lk t k) \/
+    ((exists j, verify_proof (H e) key db = VErr (VMissing j)) /\
+     (db_get db (H e) = None \/ missing_on t k)).
+  Proof.
+    intros Hw Ee HP Hkey k. pose proof (keybytes_to_hex_valid key Hkey) as Hk. fold k in Hk.
+    unfold verify_proof. fold k. unfold verify_fuel.
+    replace ((length k + 1) * (length db + 1) + 1)%nat with (S ((length k + 1) * (length db + 1))) by lia.
+    rewrite verify_f_S. destruct (db_get db (H e)) as [b|] eqn:G.
+    - rewrite (faithful e b (HP e (genuine_self t e Ee)) G), (decode_enc H H_len t e Hw Ee).
+      destruct (walk t Hw HP k ((length k + 1) * (length db + 1))%nat 0%nat Hk ltac:(nia)) as [R|[R M]].
+      + left. exact R.
+      + right. split; [exact R|right; exact M].
+    - right. split; [eauto|left; reflexivity].
+  Qed.
+End Walk.
+
+(* ------------------------------------------------------------------ Prove *)
+
+Lemma path_nodes_nil n : path_nodes n [] = [].
+Proof. destruct n; reflexivity. Qed.
+
+Lemma path_nodes_hd n key : pwf n -> key <> [] -> exists rest, path_nodes n key = n :: rest.
+Proof.
+  intros Hw Hk. destruct key as [|k0 kr]; [congruence|].
+  destruct (pwf_shape n Hw) as [(k & c & ->)|(cs & ->)].
+  - rewrite path_nodes_short by discriminate. destruct (strip k (k0 :: kr)); eauto.
+  - rewrite path_nodes_full. eauto.
+Qed.
+
+Lemma path_nodes_pwf n : pwf n -> forall key x, In x (path_nodes n key) -> pwf x.
+Proof.
+  induction n as [| |k c IH|cs IH|] using node_ind'; intros Hw key x Hx; try solve [inversion Hw].
+  - destruct key as [|k0 kr]; [destruct Hx|]. rewrite path_nodes_short in Hx by discriminate.
+    destruct (strip k (k0 :: kr)) as [r|].
+    + destruct Hx as [<-|Hx]; [exact Hw|].
+      inversion Hw as [k1 v Hk Sk Vok|k1 c0 Hk Kne' Sk Hc|]; subst.
+      * destruct r; destruct Hx.
+      * eapply IH; eassumption.
+    + destruct Hx as [<-|[]]. exact Hw.
+  - destruct key as [|k0 kr]; [destruct Hx|]. rewrite path_nodes_full in Hx.
+    destruct Hx as [<-|Hx]; [exact Hw|].
+    destruct (nth_error cs (N.to_nat k0)) as [c|] eqn:Ec; [|destruct Hx].
+    inversion Hw as [| |cs0 HL Hch H16]; subst.
+    destruct (Nat.lt_ge_cases (N.to_nat k0) 16) as [Hi|Hi].
+    + destruct (Hch _ c Ec Hi) as [->|Hc]; [destruct kr; destruct Hx|].
+      rewrite Forall_forall in IH. eapply IH; [eapply nth_error_In; exact Ec|exact Hc|exact Hx].
+    + assert (N.to_nat k0 = 16%nat).
+      { assert ((N.to_nat k0 < length cs)%nat) by (apply nth_error_Some; congruence). lia. }
+      rewrite H in Ec. destruct (H16 c Ec) as [->|(v & -> & _)]; destruct kr; destruct Hx.
+Qed.
+
+Section ProvePath.
+  Variable resolve : list N -> list N -> option (node * list N).
+
+  Lemma prove_path_nil f n prefix : (0 < f)%nat -> prove_path resolve f n prefix [] = TOk [].
+  Proof. intros Hf. destruct f; [lia|reflexivity]. Qed.
+
+  (* the first loop of Prove never fails on a resolved trie and collects the path *)
+  Lemma prove_path_ok n : pwf n -> forall f prefix key, valid_key key -> (length key < f)%nat ->
+    prove_path resolve f n prefix key = TOk (path_nodes n key).
+  Proof.
+    induction n as [| |k c IH|cs IH|] using node_ind'; intros Hw f prefix key Hkey Hf;
+      try solve [inversion Hw].
+    - destruct f as [|f]; [lia|]. pose proof (valid_key_nonempty key Hkey) as Kne.
+      rewrite path_nodes_short by exact Kne.
+      destruct key as [|k0 kr]; [congruence|]. cbn [prove_path].
+      pose proof (is_prefix_strip k (k0 :: kr)) as Hs.
+      destruct (strip k (k0 :: kr)) as [r|] eqn:Es.
+      2:{ rewrite Hs. reflexivity. }
+      destruct Hs as [-> ->]. cbn [negb].
+      pose proof (proj1 (strip_some k (k0 :: kr) r) Es) as Ek.
+      inversion Hw as [k1 v Hk Sk Vok|k1 c0 Hk Kne' Sk Hc|]; subst.
+      + assert (r = []) by (eapply valid_key_prefix_end; [exact Hk|rewrite <- Ek; exact Hkey]). subst r.
+        rewrite prove_path_nil by (cbn [length] in Hf; lia). rewrite path_nodes_nil. reflexivity.
+      + assert (Rne : r <> []).
+        { intros ->. rewrite app_nil_r in Ek. rewrite Ek in Hkey. exact (valid_key_not_nibbles k Hkey Hk). }
+        rewrite Ek in Hkey. destruct (valid_key_app_inv k r Hkey Rne) as [_ Hr].
+        rewrite IH; [reflexivity|exact Hc|exact Hr|].
+        apply (f_equal (@length N)) in Ek. rewrite app_length in Ek.
+        destruct k; [congruence|]. cbn [length] in *. lia.
+    - destruct f as [|f]; [lia|]. inversion Hw as [| |cs0 HL Hch H16]; subst.
+      destruct key as [|k0 kr]; [destruct Hkey|]. rewrite path_nodes_full. cbn [prove_path]. unfold child.
+      apply valid_key_cons in Hkey as [[-> ->]|[Hk0 Hkr]].
+      + change (N.to_nat 16) with 16%nat. destruct (nth_error cs 16) as [c|] eqn:Ec.
+        2:{ apply nth_error_None in Ec. lia. }
+        rewrite prove_path_nil by (cbn [length] in Hf; lia). rewrite path_nodes_nil. reflexivity.
+      + assert (Hi : (N.to_nat k0 < 16)%nat) by lia.
+        destruct (nth_error cs (N.to_nat k0)) as [c|] eqn:Ec.
+        2:{ apply nth_error_None in Ec. lia. }
+        destruct (Hch _ c Ec Hi) as [->|Hc].
+        * destruct f as [|f]; [cbn [length] in Hf; pose proof (valid_key_nonempty kr Hkr); destruct kr; [congruence|cbn [length] in Hf; lia]|].
+          destruct kr as [|k1 kr']; [destruct Hkr|]. reflexivity.
+        * rewrite Forall_forall in IH. rewrite (IH c (nth_error_In _ _ Ec) Hc); [reflexivity|exact Hkr|].
+          cbn [length] in Hf. lia.
+  Qed.
+End ProvePath.
+
+Section Main.
+  Variable H : list N -> list N.
+  Hypothesis H_len : forall x, length (H x) = 32%nat.
+  (* the finite set of node encodings in play, on which H is collision free *)
+  Variable NS : list N -> Prop.
+  Definition H_inj_on : Prop := forall a b, NS a -> NS b -> H a = H b -> a = b.
+  Hypothesis H_inj : H_inj_on.
+
+  (* a proof database built by hashing its nodes, all of them in NS *)
+  Definition db_keyed (db : pdb) : Prop := forall k b, In (k, b) db -> k = H b.
+  Definition db_in (db : pdb) : Prop := forall k b, In (k, b) db -> NS b.
+
+  Lemma keyed_faithful db : db_keyed db -> db_in db ->
+    forall e b, NS e -> db_get db (H e) = Some b -> b = e.
+  Proof.
+    intros K I e b He G. apply db_get_in in G. pose proof (K _ _ G) as E.
+    symmetry. apply H_inj; [exact He|eapply I; exact G|exact E].
+  Qed.
+
+  (* every branch of VerifyProof on such a database: the true value, or a
+     missing-node error; never a bad-node error, a panic or non-termination *)
+  Theorem verify_total_sound t r key db :
+    pwf t -> forallb byteb key = true -> (forall e, genuine H t e -> NS e) ->
+    db_keyed db -> db_in db -> hash_root H t = Some r ->
+    verify_proof r key db = VOk (lk t (keybytes_to_hex key)) \/
+    exists j, verify_proof r key db = VErr (VMissing j).
+  Proof.
+    intros Hw Hkey HNS K I Hr. destruct (pwf_enc_total H H_len t Hw) as [e Ee].
+    rewrite (pwf_hash_root H t e Hw Ee) in Hr. inversion Hr; subst r.
+    destruct (verify_follows H H_len db NS (keyed_faithful db K I) t e key Hw Ee HNS Hkey) as [R|[R _]];
+      [left|right]; exact R.
+  Qed.
+
+  Theorem soundness t r key db v :
+    pwf t -> forallb byteb key = true -> (forall e, genuine H t e -> NS e) ->
+    db_keyed db -> db_in db -> hash_root H t = Some r ->
+    verify_proof r key db = VOk v -> v = lk t (keybytes_to_hex key).
+  Proof.
+    intros Hw Hkey HNS K I Hr Hv.
+    destruct (verify_total_sound t r key db Hw Hkey HNS K I Hr) as [R|[j R]]; rewrite R in Hv;
+      [inversion Hv; reflexivity|discriminate].
+  Qed.
+
+  (* the second loop of Prove *)
+  Lemma prove_emit_spec nodes : forall first,
+    Forall (fun c => exists e, node_enc H c = Some e) nodes ->
+    exists db, prove_emit H first nodes = TOk db /\ db_keyed db /\
+      (forall k b, In (k, b) db -> exists c, In c nodes /\ node_enc H c = Some b) /\
+      (forall c e, In c nodes -> node_enc H c = Some e -> (32 <= length e)%nat -> In (H e, e) db) /\
+      (first = true -> forall c rest e, nodes = c :: rest -> node_enc H c = Some e -> In (H e, e) db).
+  Proof.
+    induction nodes as [|n r IH]; intros first Hall.
+    - exists []. split; [reflexivity|]. split; [intros k b []|]. split; [intros k b []|].
+      split; [intros c e []|]. intros _ c rest e E. discriminate.
+    - inversion Hall as [|n0 r0 [e Ee] Hr]; subst. destruct (IH false Hr) as (db & Ed & K & Sub & Big & _).
+      cbn [prove_emit]. rewrite Ee, Ed.
+      exists (if Nat.leb 32 (length e) || first then (H e, e) :: db else db).
+      split; [reflexivity|]. split; [|split; [|split]].
+      + intros k b Hin. destruct (Nat.leb 32 (length e) || first); [|apply K; exact Hin].
+        destruct Hin as [E|Hin]; [inversion E; reflexivity|apply K; exact Hin].
+      + intros k b Hin.
+        assert (Hin' : (H e, e) = (k, b) \/ In (k, b) db).
+        { destruct (Nat.leb 32 (length e) || first); [exact Hin|right; exact Hin]. }
+        destruct Hin' as [E|Hin'].
+        * inversion E; subst. exists n. split; [left; reflexivity|exact Ee].
+        * destruct (Sub k b Hin') as (c & Hc & Ec). exists c. split; [right; exact Hc|exact Ec].
+      + intros c e' [<-|Hc] Ec Le.
+        * rewrite Ee in Ec. inversion Ec; subst e'.
+          destruct (Nat.leb_spec 32 (length e)); [|lia]. left. reflexivity.
+        * pose proof (Big c e' Hc Ec Le). destruct (Nat.leb 32 (length e) || first); [right|]; assumption.
+      + intros -> c rest e' E Ec. inversion E; subst. rewrite Ee in Ec. inversion Ec; subst e'.
+        rewrite orb_true_r. left. reflexivity.
+  Qed.
+
+  (* completeness: the proof Prove emits for any key, present or absent, of a
+     non-empty resolved trie verifies to exactly the trie's value *)
+  Theorem completeness resolve t r key :
+    pwf t -> forallb byteb key = true -> (forall e, genuine H t e -> NS e) ->
+    hash_root H t = Some r ->
+    exists db, prove H resolve t key = TOk db /\
+               verify_proof r key db = VOk (lk t (keybytes_to_hex key)).
+  Proof.
+    intros Hw Hkey HNS Hr. set (k := keybytes_to_hex key).
+    pose proof (keybytes_to_hex_valid key Hkey) as Hk. fold k in Hk.
+    destruct (pwf_enc_total H H_len t Hw) as [e Ee].
+    rewrite (pwf_hash_root H t e Hw Ee) in Hr. inversion Hr; subst r.
+    assert (Hall : Forall (fun c => exists e, node_enc H c = Some e) (path_nodes t k)).
+    { apply Forall_forall. intros c Hc. apply (pwf_enc_total H H_len).
+      eapply path_nodes_pwf; eassumption. }
+    destruct (prove_emit_spec (path_nodes t k) true Hall) as (db & Ed & K & Sub & Big & First).
+    exists db. split.
+    { unfold prove. fold k. rewrite (prove_path_ok resolve t Hw) by (exact Hk || (unfold ops_fuel; lia)).
+      exact Ed. }
+    assert (I : db_in db).
+    { intros k' b Hin. destruct (Sub k' b Hin) as (c & Hc & Ec). apply HNS. exists c.
+      split; [eapply path_nodes_sub; exact Hc|exact Ec]. }
+    destruct (verify_follows H H_len db NS (keyed_faithful db K I) t e key Hw Ee HNS Hkey) as [R|[_ [M|M]]].
+    - exact R.
+    - exfalso. assert (Hin : In (H e, e) db).
+      { destruct (path_nodes_hd t k Hw (valid_key_nonempty k Hk)) as [rest Ep].
+        exact (First eq_refl t rest e Ep Ee). }
+      destruct (db_get_of_in db _ _ Hin) as [b' G]. congruence.
+    - exfalso. destruct M as (c & e' & Hc & Ec & Le & G). fold k in Hc.
+      destruct (db_get_of_in db _ _ (Big c e' Hc Ec Le)) as [b' G']. congruence.
+  Qed.
+End Main.
